@@ -280,3 +280,19 @@ package twig
 //@ list shared_types Engine Environment Template FileSystemLoader ArrayLoader ChainLoader CompiledLoader
 //@ list concurrent_entries (*Engine).Render (*Engine).RenderTo (*Engine).Load (*Engine).ParseTemplate (*Engine).RegisterString
 //@ list guarded FileSystemLoader.templatePaths FileSystemLoader.pathsMu
+
+// ---------------------------------------------------------------- map iteration order (C03)
+// loops over maps that cannot influence rendered output (with the reason):
+//   configuration (AddExtension), introspection (GetCachedTemplateNames, getMapKeys, DebugRender
+//   writes a debug log), attribute-cache eviction (unobservable: C20), package init
+//@ list order_exempt (*Engine).AddExtension (*Engine).GetCachedTemplateNames DebugRender evictLRUEntries getMapKeys init
+// calls that only write to the debug log
+//@ list order_inert_calls LogDebug LogVerbose LogInfo LogWarning LogError IsDebugEnabled
+// conversion and comparison helpers: no engine-visible effect (only user String() methods);
+// expression evaluation cannot assign engine state (effects only through user callbacks)
+//@ list order_inert_calls toString (*RenderContext).ToString (*RenderContext).equals (*RenderContext).toBool (*RenderContext).toNumber
+//@ list order_inert_calls (*RenderContext).EvaluateExpression
+// SetVariable(name, value) is ctx.context[name] = value (argument 1 is the key; 0 is the receiver)
+//@ list order_insert_calls (*RenderContext).SetVariable:1
+// the string form of the keys of one map is assumed injective (merge of maps with mixed key types)
+//@ list order_injective_keys toString
